@@ -23,6 +23,8 @@ CONSTANTS
   PruneKeepsEqual = FALSE
   PartialCommit = TRUE
   UpdateTouchesTruth = FALSE
+  TRank <- RankT
+  LastMergeWins = FALSE
 INVARIANT OneRecordPerTasking
 INVARIANT NoRecordWithoutTasking
 INVARIANT PointingReflectsTasking
